@@ -426,6 +426,18 @@ fn main() {
                     Err(_) => println!("PANIC"),
                 }
             }
+            // confdir <hex dir> <hex utf8 configuration text> -> like `conf`, with the working directory set to <dir> (relative include paths)
+            "confdir" => {
+                let dir = String::from_utf8(unhex(parts[1])).unwrap();
+                let text = String::from_utf8(unhex(parts[2])).unwrap();
+                std::env::set_current_dir(&dir).unwrap();
+                let r = std::panic::catch_unwind(|| humphrey_server::config::tree::parse_conf(&text, "f"));
+                match r {
+                    Ok(Ok(node)) => println!("OK {:?}", node),
+                    Ok(Err(e)) => println!("ERR {}", format!("{:?}", e).replace('\n', " ")),
+                    Err(_) => println!("PANIC"),
+                }
+            }
             // pctenc <hex bytes> -> hex of the percent-encoded text | PANIC
             "pctenc" => {
                 use humphrey::percent::PercentEncode;
